@@ -67,13 +67,33 @@ func n11History(t *testing.T) (h n11Hist) {
 		time.Sleep(51 * time.Second)
 		synctest.Wait()
 		h.states = append(h.states, n11Dump(l))
-		l.Log(&pb.Receiver{GroupName: "r2", Integration: "slack", Idx: 3}, "{}/{a=\"1\"}:{g=\""+strings.Repeat("x", 150)+"\"}", []uint64{5, 6}, []uint64{7, 8}, st, 0)
+		// the second change reaches this instance by gossip only (a later-positioned cluster member never calls Log itself)
+		remote := func(recv *pb.Receiver, gk string, firing []uint64) []byte {
+			o, err := New(Options{Retention: 2 * time.Hour, Metrics: prometheus.NewRegistry()})
+			if err != nil {
+				panic(err)
+			}
+			o.Log(recv, gk, firing, []uint64{7, 8}, st, 0)
+			b, err := o.MarshalBinary()
+			if err != nil {
+				panic(err)
+			}
+			return b
+		}
+		if err := l.Merge(remote(&pb.Receiver{GroupName: "r2", Integration: "slack", Idx: 3}, "{}/{a=\"1\"}:{g=\""+strings.Repeat("x", 150)+"\"}", []uint64{5, 6})); err != nil {
+			panic(err)
+		}
 		time.Sleep(50 * time.Second)
 		synctest.Wait()
 		h.states = append(h.states, n11Dump(l))
 		time.Sleep(12 * time.Minute) // the 10-minute entry expires: the shutdown snapshot (GC first) is smaller
 		synctest.Wait()
 		// ticks happened meanwhile: record their states too
+		// one more entry learned by gossip right before the shutdown: the shutdown snapshot must hold it
+		if err := l.Merge(remote(&pb.Receiver{GroupName: "r3", Integration: "webhook", Idx: 0}, "{}:{g=\"late\"}", []uint64{11})); err != nil {
+			panic(err)
+		}
+		time.Sleep(time.Second)
 		close(stopc)
 		<-done
 		h.states = append(h.states, n11Dump(l))
@@ -151,8 +171,18 @@ func TestVerifC11Nflog(t *testing.T) {
 	}
 	h := n11History(t)
 	nren := vfs.Renames(h.log, len(h.log))
+	// first of all: what is on disk after the clean shutdown is the log as it was then
+	if d, err, pan := n11Load(h.final); err != nil || pan != nil || d != h.states[3] {
+		R := rep.New("C11", "nflog-crash")
+		R.Violate("shutdown-snapshot-does-not-hold-the-current-log", fmt.Sprintf("after Log, two gossip merges, GC and a clean shutdown the files load to a state that differs from the log in memory at shutdown (err %v, panic %v, %d completed snapshots)", err, pan, nren), map[string]any{"rerun": true, "part": "nflog-crash"})
+		R.Write()
+		return
+	}
 	if nren < 3 {
-		t.Fatalf("history produced %d snapshots", nren)
+		R := rep.New("C11", "nflog-crash")
+		R.Violate("state-change-not-followed-by-a-snapshot", fmt.Sprintf("the history changes the log before three different maintenance ticks, but only %d snapshots were completed", nren), map[string]any{"rerun": true, "part": "nflog-crash"})
+		R.Write()
+		return
 	}
 	// Ticks during the long sleep wrote additional snapshots of states the harness did not record one by one; derive the
 	// state captured by snapshot i from the bytes that snapshot wrote (the file content after its rename), loaded cleanly.
